@@ -12,6 +12,7 @@ import (
 	"fmt"
 	"io/fs"
 	"os"
+	"path"
 	"path/filepath"
 	"regexp"
 	"sort"
@@ -368,21 +369,42 @@ func (c *c19) writeSources(dir string, src map[string]string) error {
 	return nil
 }
 
-// treeProgram lays a program out as a small directory tree: every second file
-// (never the root) moves to sub/, include statements are rewritten accordingly
-// ("sub/x.frugal" from the top, "../y.frugal" from sub/, plain names between
-// neighbours).  The compiler names an include by the base name of its path, so
-// every reference stays valid.  layout maps file name -> path relative to the
-// source root.
-func treeProgram(p *idl.Program, layout map[string]string) *idl.Program {
-	inSub := map[string]bool{}
+// treeProgram lays a program out as a small directory tree and rewrites the
+// include statements accordingly.  The compiler names an include by the base
+// name of its path, so every reference stays valid.  layout maps file name ->
+// path relative to the source root.
+//
+//	variant "sub":  every second file (never the root) moves to sub/
+//	                ("sub/x.frugal" from the top, "../y.frugal" from sub/)
+//	variant "app":  the root and every second file live in app/, the others in
+//	                the sibling directory zlib/: the root reaches half of its
+//	                includes through ".." , i.e. OUTSIDE its own directory
+//
+// Two DIFFERENT files share the base name zz_shared.frugal, one in each
+// directory, reached through different includers (legal: includes resolve
+// relative to the including file).
+func treeProgram(p *idl.Program, layout map[string]string, variant string) (*idl.Program, map[string]string) {
+	dirOf := map[string]string{}
 	for i, f := range p.Files {
-		if i%2 == 1 && i != len(p.Files)-1 {
-			inSub[f.FileName()] = true
-			layout[f.FileName()] = "sub/" + f.FileName()
-		} else {
-			layout[f.FileName()] = f.FileName()
+		odd := i%2 == 1 && i != len(p.Files)-1
+		switch {
+		case variant == "sub" && odd:
+			dirOf[f.FileName()] = "sub"
+		case variant == "app" && odd:
+			dirOf[f.FileName()] = "zlib"
+		case variant == "app":
+			dirOf[f.FileName()] = "app"
+		default:
+			dirOf[f.FileName()] = ""
 		}
+		layout[f.FileName()] = path.Join(dirOf[f.FileName()], f.FileName())
+	}
+	rel := func(fromDir, toDir, name string) string {
+		if fromDir == toDir {
+			return name
+		}
+		r, _ := filepath.Rel("/"+fromDir, "/"+path.Join(toDir, name))
+		return filepath.ToSlash(r)
 	}
 	cp := *p
 	cp.Files = nil
@@ -390,32 +412,34 @@ func treeProgram(p *idl.Program, layout map[string]string) *idl.Program {
 		nf := *f
 		nf.Includes = nil
 		for _, inc := range f.Includes {
-			path := inc.Path
-			switch {
-			case inSub[f.FileName()] && !inSub[inc.Path]:
-				path = "../" + inc.Path
-			case !inSub[f.FileName()] && inSub[inc.Path]:
-				path = "sub/" + inc.Path
-			}
-			nf.Includes = append(nf.Includes, &idl.Include{Path: path})
+			nf.Includes = append(nf.Includes, &idl.Include{Path: rel(dirOf[f.FileName()], dirOf[inc.Path], inc.Path)})
 		}
-		// two DIFFERENT files of one base name, reached through different
-		// includers (legal: includes resolve relative to the including file):
-		// zz_shared.frugal next to file 0 and sub/zz_shared.frugal next to file 1
 		if i <= 1 {
 			nf.Includes = append(nf.Includes, &idl.Include{Path: namesake})
 		}
 		cp.Files = append(cp.Files, &nf)
 	}
-	return &cp
+	d0, d1 := dirOf[p.Files[0].FileName()], dirOf[p.Files[1].FileName()]
+	extra := map[string]string{
+		path.Join(d0, namesake): "struct ZzSharedTop {\n  1: i32 a\n}\n",
+		path.Join(d1, namesake): "enum ZzSharedKind {\n  X,\n  Y\n}\nstruct ZzSharedSub {\n  1: string b,\n  2: ZzSharedKind k\n}\n",
+	}
+	return &cp, extra
 }
 
 // namesake is the base name shared by two different files of a tree program.
 const namesake = "zz_shared.frugal"
 
-var namesakeText = map[string]string{
-	namesake:          "struct ZzSharedTop {\n  1: i32 a\n}\n",
-	"sub/" + namesake: "enum ZzSharedKind {\n  X,\n  Y\n}\nstruct ZzSharedSub {\n  1: string b,\n  2: ZzSharedKind k\n}\n",
+// rootRel records where the root file of a laid-out program lives relative to
+// the source root (written during set-up only).
+var rootRel = map[*idl.Program]string{}
+
+// rootOf returns the root file's path relative to the source root.
+func rootOf(p *idl.Program) string {
+	if r, ok := rootRel[p]; ok {
+		return r
+	}
+	return p.Root().FileName()
 }
 
 // compile runs the compiler once and hashes the tree below outAbs.
@@ -648,7 +672,7 @@ func clip(s string, n int) string {
 
 func (c *c19) witness(j *job, d *difference, refKeep string) map[string]interface{} {
 	w := map[string]interface{}{
-		"program_sources": j.Src, "root_file": j.Prog.Root().FileName(), "features": j.Prog.FeatureList(),
+		"program_sources": j.Src, "root_file": rootOf(j.Prog), "features": j.Prog.FeatureList(),
 		"target": j.Tgt.Name, "gen": j.Tgt.gen(j.Set), "recurse": j.Recurse,
 		"run_a":      map[string]interface{}{"cwd": d.FirstRun.Cwd, "args": d.FirstRun.Args},
 		"run_b":      map[string]interface{}{"cwd": d.Other.Cwd, "args": d.Other.Args},
@@ -668,7 +692,7 @@ func (c *c19) witness(j *job, d *difference, refKeep string) map[string]interfac
 // runJob performs the repetitions and the location variations of one job.
 func (c *c19) runJob(j *job) {
 	run := c.run
-	rootFile := j.Prog.Root().FileName()
+	rootFile := rootOf(j.Prog)
 	srcA := filepath.Join(j.Dir, "A", "src")
 	if err := c.writeSources(srcA, j.Src); err != nil {
 		run.Inconclusive("cannot write sources: " + err.Error())
@@ -858,7 +882,7 @@ func (c *c19) runDefaultOut(i int, p *idl.Program, src map[string]string, t targ
 		return
 	}
 	j := &job{P: i, Prog: p, Src: src, Tgt: t, Set: s, Recurse: true}
-	file := filepath.Join(srcDir, p.Root().FileName())
+	file := filepath.Join(srcDir, filepath.FromSlash(rootOf(p)))
 	def := defaultOutDir(t.Name)
 	w1, w2 := filepath.Join(dir, "cwd-no-out"), filepath.Join(dir, "cwd-explicit-out")
 	os.MkdirAll(w1, 0o755)
@@ -944,11 +968,20 @@ func (c *c19) runVariation(j *job, v, srcA, outA, rootFile string) (*obs, []stri
 		if !j.Tree {
 			return nil, nil
 		}
+		if strings.HasPrefix(rootFile, "app/") {
+			// layout "app": started in the root's own directory, the root named
+			// by its bare file name; half of the includes lie outside (../zlib)
+			return c.compile(j, filepath.Join(srcA, "app"), filepath.Base(rootFile), outA, outA), []string{outA}
+		}
 		file := filepath.Join(srcA, rootFile)
 		if (j.P/2)%2 == 1 {
 			file = filepath.Join("..", rootFile)
 		}
 		return c.compile(j, filepath.Join(srcA, "sub"), file, outA, outA), []string{outA}
+	case "out-absolute-same-place":
+		// only the spelling of -out varies: the same directory, given by its
+		// absolute path instead of the relative "out"
+		return c.compile(j, srcA, rootFile, outA, outA), []string{outA}
 	case "root-through-symlink":
 		// the root IDL is a symbolic link; its target lives in another
 		// directory, under another base name, next to files that bear the names
@@ -965,11 +998,13 @@ func (c *c19) runVariation(j *job, v, srcA, outA, rootFile string) (*obs, []stri
 		}
 		c.writeSources(src, others)
 		c.writeSources(elsewhere, decoys)
-		target := filepath.Join("..", "elsewhere", "zz_real_root.frugal")
-		if j.P%2 == 1 {
-			target = filepath.Join(elsewhere, "zz_real_root.frugal")
+		link := filepath.Join(src, filepath.FromSlash(rootFile))
+		os.MkdirAll(filepath.Dir(link), 0o755)
+		target := filepath.Join(elsewhere, "zz_real_root.frugal")
+		if (j.P/2)%2 == 0 {
+			target, _ = filepath.Rel(filepath.Dir(link), target)
 		}
-		if err := os.Symlink(target, filepath.Join(src, rootFile)); err != nil {
+		if err := os.Symlink(target, link); err != nil {
 			return nil, nil
 		}
 		return c.compile(j, src, rootFile, "out", filepath.Join(src, "out")), []string{filepath.Join(j.Dir, "L")}
@@ -991,10 +1026,10 @@ func (c *c19) plainAlsoDiffers(j *job) bool {
 	}
 	defer os.RemoveAll(filepath.Join(j.Dir, "P"))
 	out := filepath.Join(src, "out")
-	ref := c.compile(&pj, src, j.Prog.Root().FileName(), "out", out)
+	ref := c.compile(&pj, src, rootOf(j.Prog), "out", out)
 	os.RemoveAll(out)
 	for k := 0; k < 6; k++ {
-		o := c.compile(&pj, src, j.Prog.Root().FileName(), "out", out)
+		o := c.compile(&pj, src, rootOf(j.Prog), "out", out)
 		os.RemoveAll(out)
 		if compare(ref, o) != nil {
 			return true
@@ -1012,7 +1047,7 @@ var dirtyKinds = []string{"out-holds-other-option-set", "out-holds-revision-with
 func revisions(p *idl.Program, style idl.Style, src map[string]string) (plus, minus string) {
 	root := p.Root()
 	nl := "\n"
-	plus = src[root.FileName()] + nl + "struct ZzExtraThing {" + nl + "  1: i32 zzField" + nl + "}" + nl +
+	plus = src[rootOf(p)] + nl + "struct ZzExtraThing {" + nl + "  1: i32 zzField" + nl + "}" + nl +
 		"service ZzExtraService {" + nl + "  ZzExtraThing zzCall(1: ZzExtraThing zzArg)" + nl + "}" + nl
 	if root.Ext == ".frugal" {
 		plus += "scope ZzExtraScope prefix zz.{zzVar} {" + nl + "  ZzOp: ZzExtraThing" + nl + "}" + nl
@@ -1026,7 +1061,7 @@ func revisions(p *idl.Program, style idl.Style, src map[string]string) (plus, mi
 }
 
 // alwaysVars are applied to every key on top of the rotating ones.
-var alwaysVars = []string{"cwd-holds-decoy-includes", "cwd-subdir-of-idl-tree", "root-through-symlink"}
+var alwaysVars = []string{"cwd-holds-decoy-includes", "cwd-subdir-of-idl-tree", "root-through-symlink", "out-absolute-same-place"}
 
 var allVars = []string{"cwd+absolute-file", "source-root", "out-absolute-nested", "out-relative-nested+relative-file-depth", "out-pre-existing-identical", "dot-slash-file"}
 
@@ -1064,8 +1099,19 @@ func runC19(tier string) int {
 		// every second program is laid out as a directory tree (sub/ with ../ includes)
 		layout := map[string]string{}
 		tree := i%2 == 1 && len(p.Files) >= 3
+		var extraFiles map[string]string
+		if !tree {
+			// nested Python namespaces across the files of one -r run: the root's
+			// package is a strict prefix of the package of a file generated later
+			nestPythonNamespaces(p)
+		}
 		if tree {
-			p = treeProgram(p, layout)
+			variant := "sub"
+			if i%4 == 3 {
+				variant = "app"
+			}
+			p, extraFiles = treeProgram(p, layout, variant)
+			rootRel[p] = layout[p.Root().FileName()]
 		}
 		place := func(m map[string]string) map[string]string {
 			if m == nil || !tree {
@@ -1075,7 +1121,7 @@ func runC19(tier string) int {
 			for n, t := range m {
 				out[layout[n]] = t
 			}
-			for n, t := range namesakeText {
+			for n, t := range extraFiles {
 				out[n] = t
 			}
 			return out
@@ -1089,14 +1135,14 @@ func runC19(tier string) int {
 		totalFiles += len(p.Files)
 		featVectors[strings.Join(p.FeatureList(), ",")] = true
 		if i < 2 {
-			run.Sample(map[string]interface{}{"program": i, "files": len(p.Files), "root": p.Root().FileName(), "features": p.FeatureList(), "root_text_head": clip(src[p.Root().FileName()], 500)})
+			run.Sample(map[string]interface{}{"program": i, "files": len(p.Files), "root": p.Root().FileName(), "features": p.FeatureList(), "root_text_head": clip(src[rootOf(p)], 500)})
 		}
 		alt := place(sanitizeForHTML(p, style))
 		rootPlus, rootMinus := revisions(p, style, src)
 		altPlus, altMinus := rootPlus, rootMinus
 		if alt != nil {
 			// html only: the neighbours of the sanitized program
-			altPlus = alt[p.Root().FileName()] + strings.TrimPrefix(rootPlus, src[p.Root().FileName()])
+			altPlus = alt[rootOf(p)] + strings.TrimPrefix(rootPlus, src[rootOf(p)])
 			pm := *p
 			rm := *p.Root()
 			if n := len(rm.Decls); n > 1 && (rm.Decls[n-1].Service != nil || rm.Decls[n-1].Scope != nil) {
@@ -1273,6 +1319,26 @@ func sanitizeForHTML(p *idl.Program, style idl.Style) map[string]string {
 		return nil
 	}
 	return out
+}
+
+// nestPythonNamespaces gives the root file the Python namespace zzshop.api and
+// the first file of the program zzshop.api.models (replacing any py namespace
+// they had): with -r the outer package is generated first, the inner one later.
+func nestPythonNamespaces(p *idl.Program) {
+	if len(p.Files) < 2 {
+		return
+	}
+	set := func(f *idl.File, v string) {
+		var ns []*idl.Namespace
+		for _, n := range f.Namespaces {
+			if n.Lang != "py" {
+				ns = append(ns, n)
+			}
+		}
+		f.Namespaces = append(ns, &idl.Namespace{Lang: "py", Value: v})
+	}
+	set(p.Root(), "zzshop.api")
+	set(p.Files[0], "zzshop.api.models")
 }
 
 func dedupe(in []string) []string {
